@@ -1,3 +1,4 @@
 // c17_conv2d.cpp — C17 conv2d driver (body shared with conv1d in c17_conv.inc)
 #define C17_ND 2
+// rev 2 (bump when c17_conv.inc / c17_show.hpp change: the driver cache hashes this file only)
 #include "c17_conv.inc"
